@@ -92,6 +92,11 @@ def ref_bins(cp, enums=None):
                 s = expand(b[2]) - excl
                 if s:
                     bins.append((b[0], runs(s)))
+            elif b[1] == "wild":
+                # single wildcard bin: (value, mask) pairs; matching values within the coverpoint's type
+                lo, hi = type_range(cp["type"])
+                s = set(v for v in range(lo, hi + 1) if any((v & m) == (val & m) for val, m in b[2]))
+                bins.append((b[0], runs(s)))
             else:
                 vals = expand(b[3]) - excl
                 for i, part in enumerate(partition(vals, b[2])):
@@ -178,6 +183,8 @@ def build_cg(vsc, spec, enum_classes=None, name="CG", ctor_arg=None):
                 for b in cp["bins"]:
                     if b[1] == "bin":
                         bd[b[0]] = vsc.bin(*_items_py(b[2]))
+                    elif b[1] == "wild":
+                        bd[b[0]] = vsc.wildcard_bin(*[tuple(p) for p in b[2]])
                     else:
                         bd[b[0]] = vsc.bin_array([] if b[2] is None else [b[2]], *_items_py(b[3]))
                 kw["bins"] = bd
